@@ -4,7 +4,11 @@ cd "$(dirname "$0")/.." || exit 2
 export DSIM_OUT=${DSIM_OUT:-$(mktemp -d /tmp/dsim-thorough-XXXX)}
 for p in ${1:-C04 C05 C06 C09 C11 C12 C15 C16 C17 C18 C19 C20}; do
   t0=$(date +%s)
-  out=$(./check $p thorough ${2:+--seed $2} 2>&1); rc=$?
+  runs=""
+  if [ -n "$3" ]; then  # third argument: percentage of the tier's run count (a shorter pass when time is limited)
+    runs="--runs $(/venv/bin/python -c "import sys; sys.path.insert(0,'.'); from dsim.runner import load; print(max(1, load('$p').RUNS['thorough'] * $3 // 100))")"
+  fi
+  out=$(./check $p thorough ${2:+--seed $2} $runs 2>&1); rc=$?
   echo "$p thorough rc=$rc $(( $(date +%s) - t0 ))s $(echo "$out" | grep '^property=' | cut -c1-220)"
   [ $rc -ne 0 ] && echo "$out" | grep -v KNOWN | head -12
   echo "$out" | grep '^WARNING' | head -3
